@@ -91,6 +91,14 @@ _ctx = None
 
 def _worker_init():
     global _ctx
+    try:
+        # a runaway case must end as MemoryError (-> clause "completes"), not take the machine down
+        import resource
+        lim = int(os.environ.get("VERIF_WORKER_AS_GB", "12")) << 30
+        if mp.current_process().name != "MainProcess":     # pool workers only (the main process starts the JVMs)
+            resource.setrlimit(resource.RLIMIT_AS, (lim, lim))
+    except (ImportError, ValueError, OSError):
+        pass
     setup_repo_import()
     _ctx = Ctx()
     import atexit
